@@ -172,8 +172,30 @@ func vfC05Run(br vfBridge, entKey uint64, victimIsClient bool, specs []vfFrameSp
 	}
 	payloadBefore = append(payloadBefore, total)
 	stream, damaged, truncation := vfApplySurgery(frames, op, ent(64))
-	if bytes.Equal(stream, bytes.Join(frames, nil)) {
-		return "", false // the operation did not change the stream (e.g. swap of identical frames cannot happen; insert of 0 bytes)
+	orig := bytes.Join(frames, nil)
+	if bytes.Equal(stream, orig) {
+		return "", false // the operation did not change the stream
+	}
+	// The first damaged frame is the one that holds the first byte at which the
+	// tampered stream differs from the original (an inserted byte may equal the
+	// byte it displaces, a deleted byte the one that follows it: the damage then
+	// starts later than the position the operation names).
+	{
+		l := 0
+		for l < len(stream) && l < len(orig) && stream[l] == orig[l] {
+			l++
+		}
+		start, d := 0, len(frames)
+		for i, f := range frames {
+			if l < start+len(f) {
+				d = i
+				break
+			}
+			start += len(f)
+		}
+		if d > damaged {
+			damaged = d
+		}
 	}
 	bound := payloadBefore[damaged]
 	s.Ep.SetBuf(readBuf)
